@@ -301,40 +301,39 @@ theorem C07_deriv_huber_sep (δ : ℝ) (hδ : 0 < δ) (x : CVec ℝ n) :
       apply Cx.ext' <;> simp
   rwa [hg] at h
 
-/-- Huber norm, non-separable form: the function is differentiable **everywhere** (threshold
-    `‖x‖ = δ` and `x = 0` included) and its gradient is given by the division-free formula
-    `huberNonsepSafeJaxGrad` (conjugated) … -/
+/-- Huber norm, non-separable form (code after repair 7a3a18a), **everywhere** (threshold
+    `‖x‖ = δ` and `x = 0` included): gradient `x` inside, `δ x/‖x‖` outside -/
 theorem C07_deriv_huber_nonsep (δ : ℝ) (hδ : 0 < δ) (x : CVec ℝ n) :
-    IsGradAt (Fn.huber δ false : Fn ℝ n).eval x (scicoGrad (huberNonsepSafeJaxGrad δ x)) := by
-  apply conj_grad
-  intro d
-  simp only [Fn.eval]
-  have h := hasDerivAt_huber_comp hδ (hasDerivAt_sumAbs2 x d) (fun t => sumAbs2_nonneg _)
-  rw [along_zero] at h
-  refine HasDerivAt.congr' h (fun _ => rfl) ?_
-  rw [reBdot_eq, Finset.mul_sum]
-  refine Finset.sum_congr rfl (fun i _ => ?_)
-  show (if δ < norm2 x then δ / (2 * norm2 x) else 1 / 2) * _ = _
-  unfold huberNonsepSafeJaxGrad
-  by_cases hc : δ < norm2 x
-  · have hn : norm2 x ≠ 0 := (lt_trans hδ hc).ne'
-    simp only [hc, if_true, Cx.smul_re, Cx.smul_im, Cx.divr_re, Cx.divr_im, Cx.conj_re, Cx.conj_im]
-    field_simp
-    ring
-  · simp only [hc, if_false, Cx.conj_re, Cx.conj_im]
-    ring
+    IsGradAt (Fn.huber δ false : Fn ℝ n).eval x
+      (fun i => if δ < norm2 x then Cx.smul δ (Cx.divr (x i) (norm2 x)) else x i) := by
+  have h := (Fn.huber δ false : Fn ℝ n).isGradAt x hδ
+  have hg : (Fn.huber δ false : Fn ℝ n).grad x =
+      fun i => if δ < norm2 x then Cx.smul δ (Cx.divr (x i) (norm2 x)) else x i := by
+    funext i
+    simp only [Fn.grad, Fn.jaxGrad, scicoGrad, conjVec]
+    by_cases hc : δ < norm2 x
+    · simp only [hc, if_true]
+      apply Cx.ext' <;> simp [neg_div]
+    · simp only [hc, if_false]
+      apply Cx.ext' <;> simp
+  rwa [hg] at h
 
-/-- … which is what the code computes (`‖x‖·x/‖x‖` inside, through `norm`) at every `x ≠ 0`.
-    At `x = 0` the code's expression is `0·(0/0)`: see `known_findings.txt` (huber-nonsep-grad-at-zero). -/
-theorem C07_huber_nonsep_code_partial (δ : ℝ) (x : CVec ℝ n) (hx : sumAbs2 x ≠ 0) :
-    (Fn.huber δ false : Fn ℝ n).jaxGrad x = huberNonsepSafeJaxGrad δ x := by
-  have hn := norm2_ne_zero x hx
-  funext i
-  simp only [Fn.jaxGrad, huberNonsepSafeJaxGrad]
-  by_cases hc : δ < norm2 x
-  · simp only [hc, if_true]
-  · simp only [hc, if_false]
-    apply Cx.ext' <;> simp <;> field_simp
+/-- the formula the code used before the repair (`‖x‖·x/‖x‖` inside, through `norm`) agrees with it
+    exactly on `x ≠ 0`; at `x = 0` it is `0·(0/0)` (NaN in IEEE arithmetic) although the gradient
+    there is `0` by the previous theorem — the recorded finding `huber-nonsep-grad-at-zero`. -/
+theorem C07_huber_nonsep_old_formula_partial (δ : ℝ) (x : CVec ℝ n) (hx : sumAbs2 x ≠ 0) :
+    huberNonsepOldJaxGrad δ x = (Fn.huber δ false : Fn ℝ n).jaxGrad x :=
+  huberNonsepOld_eq δ x hx
+
+/-- real argument array with complex operators/data inside the functional (e.g. a real image and
+    a Fourier-domain loss): `grad` returns a real array, the real part of the complex gradient,
+    and it is the gradient for all (real) directions -/
+theorem C07_real_argument (f : Fn ℝ n) (x : CVec ℝ n) (h : f.Smooth x) (d : CVec ℝ n)
+    (hd : ∀ i, (d i).im = 0) :
+    HasDerivAt (fun t : ℝ => f.eval (along x d t)) (reInner (f.gradRealArg x) d) 0 ∧
+    (∀ i, (f.gradRealArg x i).im = 0) := by
+  refine ⟨f.isGradAt_realArg x h d hd, fun i => ?_⟩
+  simp [Fn.gradRealArg, scicoGrad, conjVec, realPart]
 
 /-! ## argument slots of `Function` and `cvjp` -/
 
@@ -379,8 +378,8 @@ example : (Fn.scaled 3 (Fn.add Fn.l2 (Fn.huber 1 true)) : Fn ℝ 2).Smooth (fun 
 
 -- a loss composed with an operator whose residual is on the Huber threshold, and a 1-norm of a
 -- residual with no zero coordinate
-example : (Fn.loss (m := 1) 2 (fun _ _ => ⟨1, 0⟩) (fun _ => ⟨0, 0⟩) (Fn.huber 1 false) : Fn ℝ 1).Smooth (fun _ => ⟨1, 0⟩) := by
-  simp [Fn.Smooth, sumAbs2_eq, vsub, mulVec_eq, Cx.abs2]
+example : (Fn.loss (m := 1) 2 (fun _ _ => ⟨1, 0⟩) (fun _ => ⟨0, 0⟩) (Fn.add (Fn.huber 1 false) Fn.l1) : Fn ℝ 1).Smooth (fun _ => ⟨1, 0⟩) := by
+  simp [Fn.Smooth, vsub, mulVec_eq, Cx.abs2]
 
 -- the hypothesis of `C07_vjp_adj` / `C07_jacobian_op` holds for every dense Jacobian
 example (A : Mat ℝ 2 3) : ∀ c d, bdot (mulVec (transpose A) c) d = bdot c (mulVec A d) := bdot_transpose A
